@@ -23,7 +23,15 @@ import (
 type vhCms struct {
 	wrongType, sigBad bool
 	digest            []byte
+	digests           [][]byte // when set: the digest vouched for by the n-th blob decoded
 	decoded           int
+}
+
+func (c *vhCms) current() []byte {
+	if c.digests != nil && c.decoded >= 1 && c.decoded <= len(c.digests) {
+		return c.digests[c.decoded-1]
+	}
+	return c.digest
 }
 
 func (c *vhCms) install() {
@@ -51,10 +59,10 @@ func (c *vhCms) install() {
 		switch d := dest.(type) {
 		case *SpcIndirectDataContentMsi:
 			d.MessageDigest.DigestAlgorithm = alg
-			d.MessageDigest.Digest = c.digest
+			d.MessageDigest.Digest = c.current()
 		case *SpcIndirectDataContentPe:
 			d.MessageDigest.DigestAlgorithm = alg
-			d.MessageDigest.Digest = c.digest
+			d.MessageDigest.Digest = c.current()
 		}
 		return nil
 	})
@@ -260,4 +268,38 @@ func VH_C02_CabVerifyComparesDigest() {
 	_, err = VerifyCab(bytes.NewReader(u), false)
 	_, notSigned := err.(sigerrors.NotSignedError)
 	vhAssert(notSigned, "cabinet-without-signature-is-not-signed")
+}
+
+
+// H02.pe-two: a certificate table with TWO signatures using the same digest
+// algorithm (dual signing, or a signature grafted from another file next to a
+// genuine one). Each signature vouches for its own image digest (the stub
+// CMS layer hands out an arbitrary 32-byte value for the first and for the
+// second); checkSignatures accepts only if BOTH equal the digest recomputed
+// from the image - in either order.
+func VH_C02_PETwoSignaturesSameAlgorithm() {
+	// vh:stubbed
+	f := vhPEGap(false, 0, 2, 0, 0)
+	dx, err := DigestPE(bytes.NewReader(f.x), crypto.SHA256, false)
+	vhAssume(err == nil)
+	d1, d2 := vhBytes("digest-in-first-signature", 32), vhBytes("digest-in-second-signature", 32)
+	cms := &vhCms{digests: [][]byte{d1, d2}}
+	cms.install()
+	entry := func(payload []byte) []byte {
+		e := make([]byte, 8+len(payload))
+		binary.LittleEndian.PutUint32(e, uint32(len(e)))
+		e[4], e[5], e[6], e[7] = 0, 2, 2, 0
+		copy(e[8:], payload)
+		return e
+	}
+	table := append(entry([]byte("cms-blob")), entry([]byte("cms-blob"))...)
+	sigs, err := checkSignatures(table, bytes.NewReader(f.x))
+	vhReach("decided") // vh:require decided
+	both := bytes.Equal(d1, dx.Imprint) && bytes.Equal(d2, dx.Imprint)
+	if err == nil {
+		vhReach("accepted") // vh:require accepted
+		vhAssert(both && len(sigs) == 2, "every-signature-must-vouch-for-this-image")
+	} else {
+		vhAssert(!both, "two-genuine-signatures-accepted")
+	}
 }
